@@ -44,10 +44,26 @@ open Scalar
 
 /-! ## Inputs -/
 
+/-- One `data::Connection` of a well's results. -/
+structure ConnDyn (α : Type) where
+  index : Nat                          -- `Connection::index` (global cell index)
+  rates : List (Rt × α)
+  resv : α                             -- `reservoir_rate`
+  pressure : α
+
+/-- One `data::Segment` of a well's results. -/
+structure SegDyn (α : Type) where
+  num : Nat                            -- `segNumber` (key of `Well::segments`)
+  rates : List (Rt × α)
+  press : List α                       -- `SegmentPressures`, enum order
+
 /-- One entry of `data::Wells` (simulator results). -/
 structure WellDyn (α : Type) where
   shut : Bool                          -- `dynamicStatus == Well::Status::SHUT`
   rates : List (Rt × α)                -- the components that are set
+  isProducer : Bool := true            -- `current_control.isProducer`
+  conns : List (ConnDyn α) := []       -- `connections`
+  segs : List (SegDyn α) := []         -- `segments`
 
 /-- `Rates::get(p, 0.0)`. -/
 def lookupRate [Scalar α] : List (Rt × α) → Rt → α
@@ -63,6 +79,7 @@ structure WellIn (α : Type) where
   dyn : Option (WellDyn α)             -- `none`: not present in `data::Wells`
   hprod : HPhase → α                   -- `Well::production_rate(st, phase)`
   hinj : HPhase → α                    -- `Well::injection_rate(st, phase)`
+  sconns : List (Nat × Nat) := []      -- `Well::getConnections()`: (global_index, complnum), input order
 
 /-- A schedule group at the report step. -/
 structure GroupIn (α : Type) where
@@ -77,6 +94,10 @@ structure Ctx (α : Type) where
   wells : List (WellIn α)              -- `schedule_wells`
   efac : String → α                    -- `efac(args.eff_factors, name)`
   dt : α                               -- `args.duration`
+  num : Nat := 0                       -- `args.num` (connection: global index + 1, completion, segment, region)
+  dyns : List (String × WellDyn α) := []   -- all of `args.wells` (`data::Wells`), by name
+  rconns : List (String × Nat) := []   -- `regionCache.connections(fip_region, num)`: (well, global index)
+  nodeP : Option (α × α) := none       -- `grp_nwrk.nodeData[group_name]`: (pressure, converged_pressure)
 
 /-! ## Leaves -/
 
@@ -109,10 +130,169 @@ def histLoop [Scalar α] (obs : WellIn α → α) (efac : String → α) : List 
       if d.shut then histLoop obs efac ws acc
       else histLoop obs efac ws (add acc (mul (obs w) (efac w.name)))
 
+/-! ## Connection, completion, segment, region and network level leaves -/
+
+/-- `std::find_if(connections, c.index == global_index)` -/
+def findConn : List (ConnDyn α) → Nat → Option (ConnDyn α)
+  | [], _ => none
+  | c :: r, i => if c.index = i then some c else findConn r i
+
+/-- `segments.find(segNumber)` -/
+def findSeg : List (SegDyn α) → Nat → Option (SegDyn α)
+  | [], _ => none
+  | s :: r, i => if s.num = i then some s else findSeg r i
+
+/-- The common head of the single-well leaves: `schedule_wells.front()`, present in the
+results and not dynamically SHUT. -/
+def frontDyn (c : Ctx α) : Option (WellIn α × WellDyn α) :=
+  match c.wells with
+  | [] => none
+  | w :: _ =>
+    match w.dyn with
+    | none => none
+    | some d => if d.shut then none else some (w, d)
+
+/-- `args.num - 1` as a `size_t` connection index: `num = 0` wraps around and matches nothing. -/
+def connOfNum (cs : List (ConnDyn α)) (num : Nat) : Option (ConnDyn α) :=
+  if num = 0 then none else findConn cs (num - 1)
+
+/-- `crate<phase,injection>`: one connection of one well; zero unless the well's current control
+type matches the direction (`current_control.isProducer == injection` gives zero); producers
+are negated. No sign filter on the value. -/
+def evalCrate [Scalar α] (p : Rt) (inj : Bool) (c : Ctx α) : α :=
+  match frontDyn c with
+  | none => zero
+  | some (w, d) =>
+    if d.isProducer = inj then zero
+    else
+      match connOfNum d.conns c.num with
+      | none => zero
+      | some cd =>
+        if inj then mul (lookupRate cd.rates p) (c.efac w.name)
+        else neg (mul (lookupRate cd.rates p) (c.efac w.name))
+
+/-- `crate_resv<injection>`: the same with `Connection::reservoir_rate`. -/
+def evalCrateResv [Scalar α] (inj : Bool) (c : Ctx α) : α :=
+  match frontDyn c with
+  | none => zero
+  | some (w, d) =>
+    if d.isProducer = inj then zero
+    else
+      match connOfNum d.conns c.num with
+      | none => zero
+      | some cd => if inj then mul cd.resv (c.efac w.name) else neg (mul cd.resv (c.efac w.name))
+
+/-- `cpr`: connection pressure (no direction test). -/
+def evalCpr [Scalar α] (c : Ctx α) : α :=
+  match frontDyn c with
+  | none => zero
+  | some (_, d) =>
+    match connOfNum d.conns c.num with
+    | none => zero
+    | some cd => cd.pressure
+
+/-- The loop of `ratel<>` / `cratel<>` over the schedule connections of one completion: every
+connection that has results contributes `q * efac`. -/
+def connSum [Scalar α] (p : Rt) (e : α) (dcs : List (ConnDyn α)) : List Nat → α → α
+  | [], acc => acc
+  | g :: r, acc =>
+    match findConn dcs g with
+    | none => connSum p e dcs r acc
+    | some cd => connSum p e dcs r (add acc (mul (lookupRate cd.rates p) e))
+
+/-- `Well::getConnections(complnum)`: global indices of the connections of that completion. -/
+def complConns (sc : List (Nat × Nat)) (complnum : Nat) : List Nat :=
+  (sc.filter fun x => x.2 = complnum).map (·.1)
+
+/-- `ratel<phase,injection>` (W…L keys): `args.num` is the completion number. -/
+def evalRatel [Scalar α] (p : Rt) (inj : Bool) (c : Ctx α) : α :=
+  match frontDyn c with
+  | none => zero
+  | some (w, d) =>
+    if d.isProducer = inj then zero
+    else
+      if inj then connSum p (c.efac w.name) d.conns (complConns w.sconns c.num) zero
+      else neg (connSum p (c.efac w.name) d.conns (complConns w.sconns c.num) zero)
+
+/-- `getCompletionNumberFromGlobalConnectionIndex(well->getConnections(), args.num - 1)` -/
+def complOfConn (sc : List (Nat × Nat)) (num : Nat) : Option Nat :=
+  if num = 0 then none else (sc.find? fun x => x.1 = num - 1).map (·.2)
+
+/-- `cratel<phase,injection>` (C…L keys): `args.num - 1` is a connection; the value is that of
+the completion the connection belongs to. -/
+def evalCratel [Scalar α] (p : Rt) (inj : Bool) (c : Ctx α) : α :=
+  match frontDyn c with
+  | none => zero
+  | some (w, d) =>
+    if d.isProducer = inj then zero
+    else
+      match complOfConn w.sconns c.num with
+      | none => zero
+      | some k =>
+        if inj then connSum p (c.efac w.name) d.conns (complConns w.sconns k) zero
+        else neg (connSum p (c.efac w.name) d.conns (complConns w.sconns k) zero)
+
+/-- `segment_quantity`: the segment `args.num` of the front well. -/
+def evalSeg [Scalar α] (c : Ctx α) (get : WellIn α → SegDyn α → α) : α :=
+  match frontDyn c with
+  | none => zero
+  | some (w, d) =>
+    match findSeg d.segs c.num with
+    | none => zero
+    | some s => get w s
+
+/-- `srate<phase>`: `- segment.rates.get(phase) * efac` (opposite sign convention). -/
+def evalSrate [Scalar α] (p : Rt) (c : Ctx α) : α :=
+  evalSeg c fun w s => mul (neg (lookupRate s.rates p)) (c.efac w.name)
+
+def getD0 [Scalar α] : List α → Nat → α
+  | [], _ => zero
+  | x :: _, 0 => x
+  | _ :: r, n + 1 => getD0 r n
+
+/-- `segpress<ix>` -/
+def evalSegpress [Scalar α] (i : Nat) (c : Ctx α) : α := evalSeg c fun _ s => getD0 s.press i
+
+/-- `data::Wells::get(well, global_index, phase)` (itself without status test). -/
+def connRate [Scalar α] : List (String × WellDyn α) → String → Nat → Rt → α
+  | [], _, _, _ => zero
+  | (n, d) :: r, wn, g, p =>
+    if n = wn then
+      match findConn d.conns g with
+      | none => zero
+      | some cd => lookupRate cd.rates p
+    else connRate r wn g p
+
+/-- `args.wells.find(well)` exists and is dynamically SHUT -/
+def dynShut : List (String × WellDyn α) → String → Bool
+  | [], _ => false
+  | (n, d) :: r, wn => if n = wn then d.shut else dynShut r wn
+
+/-- The loop of `region_rate<phase,injection>` over the region's connections: a well the results
+report as SHUT is skipped; otherwise `Rate = q * efac`, clamped to zero when
+`(Rate > 0) != injection`. -/
+def regionLoop [Scalar α] (p : Rt) (inj : Bool) (efac : String → α) (dyns : List (String × WellDyn α)) :
+    List (String × Nat) → α → α
+  | [], acc => acc
+  | (wn, g) :: r, acc =>
+    if dynShut dyns wn then regionLoop p inj efac dyns r acc
+    else if pos (mul (connRate dyns wn g p) (efac wn)) = inj then
+      regionLoop p inj efac dyns r (add acc (mul (connRate dyns wn g p) (efac wn)))
+    else regionLoop p inj efac dyns r (add acc zero)
+
+def evalRegionRate [Scalar α] (p : Rt) (inj : Bool) (c : Ctx α) : α :=
+  if inj then regionLoop p inj c.efac c.dyns c.rconns zero
+  else neg (regionLoop p inj c.efac c.dyns c.rconns zero)
+
+/-- `node_pressure` / `converged_node_pressure` -/
+def evalNodePressure [Scalar α] (conv : Bool) (c : Ctx α) : α :=
+  match c.nodeP with
+  | none => zero
+  | some (p, pc) => if conv then pc else p
+
 /-! ## Expressions -/
 
-/-- Value of an expression; `none` for leaves that are not modelled (atoms and the
-connection / completion / segment level leaves). -/
+/-- Value of an expression; `none` for leaves that are not modelled (atoms). -/
 def evalE [Scalar α] (c : Ctx α) : E → Option α
   | .rate p inj => some (evalRate p inj c)
   | .prodHist p => some (histLoop (fun w => w.hprod p) c.efac c.wells zero)
@@ -134,10 +314,15 @@ def evalE [Scalar α] (c : Ctx α) : E → Option α
     match evalE c a, evalE c b with
     | some x, some y => some (if isZero y then zero else div x y)
     | _, _ => none
-  | .ratel _ _ => none
-  | .crate _ _ => none
-  | .cratel _ _ => none
-  | .srate _ => none
+  | .ratel p inj => some (evalRatel p inj c)
+  | .crate p inj => some (evalCrate p inj c)
+  | .cratel p inj => some (evalCratel p inj c)
+  | .srate p => some (evalSrate p c)
+  | .regionRate p inj => some (evalRegionRate p inj c)
+  | .crateResv inj => some (evalCrateResv inj c)
+  | .cpr => some (evalCpr c)
+  | .segpress i => some (evalSegpress i c)
+  | .nodePressure conv => some (evalNodePressure conv c)
   | .atom _ => none
 
 /-! ## Units (`measure` tags as the names of the enum constants) -/
@@ -172,6 +357,15 @@ def unitOf : E → Option String
   | .prodHist p => some (histUnit p)
   | .injHist p => some (histUnit p)
   | .duration => some "time"
+  | .ratel p _ => some (rateLeafUnit p)
+  | .crate p _ => some (rateLeafUnit p)        -- zero and non-zero returns alike
+  | .cratel p _ => some (rateLeafUnit p)
+  | .srate p => some (rateLeafUnit p)
+  | .regionRate p _ => some (rateUnit p)       -- no mass-rate override in `region_rate<>`
+  | .crateResv _ => some (rateUnit .reservoir_oil)
+  | .cpr => some "pressure"
+  | .segpress _ => some "pressure"
+  | .nodePressure _ => some "pressure"
   | .mul a b =>
     match unitOf a, unitOf b with
     | some x, some y => some (mulUnit x y)
@@ -223,6 +417,15 @@ def isWellCompletionK (k : Nat) : Bool :=
 
 def stripCompletionK (k : Nat) : Nat := if isWellCompletionK k then k / 256 else k
 
+/-- `is_connection_completion`: `C[OGW][IP][RT]L`. -/
+def isConnCompletionK (k : Nat) : Bool :=
+  Nat.beq (codeLen k) 5 && Nat.beq (charAt k 0) 67 && [79, 71, 87].contains (charAt k 1) &&
+    [73, 80].contains (charAt k 2) && [82, 84].contains (charAt k 3) && Nat.beq (charAt k 4) 76
+
+/-- both `pop_back()`s of `parseKeywordType` -/
+def stripCompletionsK (k : Nat) : Nat :=
+  if isConnCompletionK (stripCompletionK k) then stripCompletionK k / 256 else stripCompletionK k
+
 /-- `SummaryConfig`'s `is_total(keyword)`. -/
 def configIsTotalKwK (k : Nat) : Bool :=
   memK Gen.configTotalsK (dropFirst k) ||
@@ -233,10 +436,10 @@ def configIsRateKwK (k : Nat) : Bool :=
   memK Gen.configRatesK (dropFirst k) ||
     (decide (codeLen k > Gen.configRateMinLen) && memK Gen.configRateSub3K (takeFirst 3 (dropFirst k)))
 
-/-- `parseKeywordType(key) == Type::Total` for a well/group/field key: the completion `L` is
-dropped, then `is_rate` is tested first. -/
+/-- `parseKeywordType(key) == Type::Total` (region keys normalised by the caller): the completion
+`L` of `W…L` and `C…L` keys is dropped, then `is_rate` is tested first. -/
 def configIsTotalK (k : Nat) : Bool :=
-  !configIsRateKwK (stripCompletionK k) && configIsTotalKwK (stripCompletionK k)
+  !configIsRateKwK (stripCompletionsK k) && configIsTotalKwK (stripCompletionsK k)
 def configIsTotal (key : String) : Bool := configIsTotalK (keyCode key)
 
 inductive Cat
@@ -341,6 +544,48 @@ def nodeValue [Scalar α] (gs : List (GroupIn α)) (ws : List (WellIn α)) (cat 
   | none => none
   | some e =>
     match evalE (nodeCtx gs ws cat node key dt) e, unitOf e with
+    | some v, some u => some (v, u)
+    | _, _ => none
+
+/-! ### nodes below the well level, regions, network nodes -/
+
+/-- What kind of summary node: `Category::Well / Connection / Completion / Segment` all use
+`find_single_well` and the well rule of `setFactors`; `Region` uses `find_region_wells` and the
+field rule (whole chain, for rates as well). -/
+inductive Kind
+  | single | group | field | region
+  deriving DecidableEq, Repr, Inhabited
+
+def Kind.cat : Kind → Cat
+  | .single => .well | .group => .group | .field => .field | .region => .field
+
+/-- `find_region_wells`: the schedule wells with a connection in the region, by insert index. -/
+def regionWells (ws : List (WellIn α)) (rconns : List (String × Nat)) : List (WellIn α) :=
+  sortBySeq (ws.filter fun w => rconns.any fun rc => rc.1 = w.name)
+
+def xfindWells (gs : List (GroupIn α)) (ws : List (WellIn α)) (kind : Kind) (name : String)
+    (rconns : List (String × Nat)) : List (WellIn α) :=
+  match kind with
+  | .region => regionWells ws rconns
+  | k => findWells gs ws k.cat name
+
+/-- the `fn_args` of a node of any kind; for `single/group/field` this is `nodeCtx` plus the
+number and the extra simulator results. -/
+def xnodeCtx [Scalar α] (gs : List (GroupIn α)) (ws : List (WellIn α)) (kind : Kind)
+    (node : String) (num : Nat) (key : String) (dt : α) (dyns : List (String × WellDyn α))
+    (rconns : List (String × Nat)) (nodeP : Option (α × α)) : Ctx α :=
+  { wells := xfindWells gs ws kind node rconns,
+    efac := efacLookup ((setFactors gs kind.cat (configIsTotal key) node
+              (xfindWells gs ws kind node rconns)).getD []),
+    dt := dt, num := num, dyns := dyns, rconns := rconns, nodeP := nodeP }
+
+def xnodeValue [Scalar α] (gs : List (GroupIn α)) (ws : List (WellIn α)) (kind : Kind)
+    (node : String) (num : Nat) (key : String) (dt : α) (dyns : List (String × WellDyn α))
+    (rconns : List (String × Nat)) (nodeP : Option (α × α)) : Option (α × String) :=
+  match lookupFun key with
+  | none => none
+  | some e =>
+    match evalE (xnodeCtx gs ws kind node num key dt dyns rconns nodeP) e, unitOf e with
     | some v, some u => some (v, u)
     | _, _ => none
 
